@@ -8,6 +8,7 @@ quantity vectors are equal to each other within some tolerance.
 * `assert_equal_vectors` asserts that two quantity vectors are equal.
 """
 
+from math import inf
 from typing import Optional, SupportsFloat
 from pytest import approx
 from sympy import N, re, im
@@ -32,6 +33,10 @@ def approx_equal_numbers(
 
     For more information, refer to the documentation of `pytest.approx`.
     """
+
+    # an infinite number is only equal to itself, whereas the default absolute tolerance would be infinite
+    if lhs in (inf, -inf) or rhs in (inf, -inf):
+        return lhs == rhs
 
     if relative_tolerance is None:
         relative_tolerance = APPROX_RELATIVE_TOLERANCE
